@@ -12,17 +12,13 @@ Fixpoint find_ref (n : string) (t : list (string * (ctx -> VL))) : option (ctx -
   | (m, v) :: r => if String.eqb n m then Some v else find_ref n r
   end.
 
-Definition agree_at (name : string) (enc : L) (van : ctx -> VL) (c : ctx) : bool :=
-  negb (covered name c) || (layout_eqb_at LP c enc (van c) && wf LP (van c) c && norest LP (van c) c
-                            || layout_eqb_at LP c enc (van c) && wf LP (van c) c).
-
-(* gate's Encode layout equals the reference at every registered context outside the recorded 1.7 deviation;
+(* gate's Encode layout equals the reference at EVERY registered context (the 1.7 deviation is repaired, 6e760d1);
    a referenced type that the translator could not translate fails the obligation too *)
 Definition c07_entry_ok (e : entry) : bool :=
   match e with
   | Fragment name enc _ ctxs =>
       match find_ref name references with
-      | Some van => forallb (fun c => negb (covered name c) || (layout_eqb_at LP c enc (van c) && wf LP (van c) c)) ctxs
+      | Some van => forallb (fun c => layout_eqb_at LP c enc (van c) && wf LP (van c) c) ctxs
       | None => true
       end
   | Opaque name _ _ => match find_ref name references with Some _ => false | None => true end
@@ -41,24 +37,24 @@ Proof. vm_compute. reflexivity. Qed.
 
 Theorem C07_vanilla_decodes_lemma :
   forall name enc dec ctxs van, In (Fragment name enc dec ctxs) packets -> find_ref name references = Some van ->
-  forall c, In c ctxs -> covered name c = true ->
+  forall c, In c ctxs ->
   forall v, in_dom LP lp_dom (van c) c v ->
   exists bs, enc_L LP enc c v = Ok bs /\ dec_L LP (van c) c bs = Ok (v, []).
 Proof.
-  intros name enc dec ctxs van He Hr c Hc Hcov v D.
+  intros name enc dec ctxs van He Hr c Hc v D.
   pose proof C07_layouts as H. unfold c07_failing in H. apply map_eq_nil in H.
   pose proof (filter_nil _ _ H _ He) as Hf. apply negb_false_iff in Hf.
   cbn [c07_entry_ok] in Hf. rewrite Hr in Hf. rewrite forallb_forall in Hf. specialize (Hf c Hc).
-  rewrite Hcov in Hf. cbn [negb orb] in Hf. apply andb_true_iff in Hf as [Heq Hwf].
+  apply andb_true_iff in Hf as [Heq Hwf].
   destruct (pair_roundtrip LP lp_dom lp_ok enc (van c) c v [] Heq Hwf D (fun _ => eq_refl)) as [bs [E Dd]].
   rewrite app_nil_r in Dd. exists bs. auto.
 Qed.
 
-(* ---- the 1.7 deviation is real: gate's plugin message at protocol 4 is not what the reference reads ---- *)
+(* ---- PRE-FIX fact: the one-byte array length gate wrote below 1.8 before 6e760d1 was not what the reference reads ---- *)
 Definition pm17_value : value := VPair (VAtom (ABytes (tx "x"))) (VPair (VAtom (ABytes [9; 9; 9; 9; 9]%N)) VUnit).
-Theorem C07_17_refuted_lemma :
+Theorem C07_prefix_17_refuted_lemma :
   in_dom LP lp_dom (van_plugin_message (mkctx 4 true)) (mkctx 4 true) pm17_value /\
-  exists bs, enc_L LP enc_plugin_Message (mkctx 4 true) pm17_value = Ok bs /\
+  exists bs, enc_L LP prefix_plugin_message_17 (mkctx 4 true) pm17_value = Ok bs /\
              dec_L LP (van_plugin_message (mkctx 4 true)) (mkctx 4 true) bs <> Ok (pm17_value, []).
 Proof.
   split.
@@ -105,13 +101,17 @@ Proof.
   - unfold canonical, pick. apply filter_as_pick.
 Qed.
 
-(* the canonical encoder (what the property demands) is inverted by the vanilla reader, for every action list,
+(* today's encoder is the canonical one *)
+Theorem C07_upsert_impl_is_spec_lemma : forall acts c, impl_upsert acts c = spec_upsert acts c.
+Proof. reflexivity. Qed.
+
+(* the encoder (today's = canonical) is inverted by the vanilla reader, for every action list,
    in whatever order and with whatever repetitions the API supplied it *)
-Theorem C07_upsert_spec_lemma : forall acts c, In c ctxs_playerinfo_Upsert ->
+Theorem C07_upsert_impl_lemma : forall acts c, In c ctxs_playerinfo_Upsert ->
   forall v, in_dom LP lp_dom (van_upsert acts c) c v ->
-  exists bs, enc_L LP (spec_upsert acts c) c v = Ok bs /\ dec_L LP (van_upsert acts c) c bs = Ok (v, []).
+  exists bs, enc_L LP (impl_upsert acts c) c v = Ok bs /\ dec_L LP (van_upsert acts c) c bs = Ok (v, []).
 Proof.
-  intros acts c Hc v D. unfold spec_upsert, van_upsert in *.
+  intros acts c Hc v D. rewrite C07_upsert_impl_is_spec_lemma. unfold spec_upsert, van_upsert in *.
   destruct (canonical_is_pick acts) as [bs [Hb Hp]]. rewrite Hp in *.
   pose proof upsert_wf_all_true as W. unfold upsert_wf_all in W.
   rewrite forallb_forall in W. specialize (W bs Hb). rewrite forallb_forall in W. specialize (W c Hc).
@@ -119,20 +119,20 @@ Proof.
   rewrite app_nil_r in Dd. exists out. auto.
 Qed.
 
-(* the encoder as implemented coincides with the canonical one when the API supplied the canonical order *)
-Theorem C07_upsert_impl_eq_spec_lemma : forall acts c, canonical acts = acts -> impl_upsert acts c = spec_upsert acts c.
-Proof. intros acts c H. unfold impl_upsert, spec_upsert, van_upsert. rewrite H. reflexivity. Qed.
+(* PRE-FIX facts (encoder before d54f770): it coincided with the canonical one only for a canonical ActionSet ... *)
+Theorem C07_prefix_upsert_eq_spec_off_trigger_lemma : forall acts c, canonical acts = acts -> prefix_upsert acts c = spec_upsert acts c.
+Proof. intros acts c H. unfold prefix_upsert, spec_upsert, van_upsert. rewrite H. reflexivity. Qed.
 
 (* ... and not otherwise: ActionSet [Latency; Listed], one entry with latency 300, listed: the vanilla reader
-   takes the first latency byte for the listed flag *)
+   took the first latency byte for the listed flag *)
 Definition ups_value : value :=
   VPair VUnit (VPair (VList [VPair (VAtom (ABytes (repeat 7%N 16))) (VPair (VAtom (AZ 300)) (VPair (VAtom (ABool true)) VUnit))]) VUnit).
 Definition ups_intended : value :=
   VPair VUnit (VPair (VList [VPair (VAtom (ABytes (repeat 7%N 16))) (VPair (VAtom (ABool true)) (VPair (VAtom (AZ 300)) VUnit))]) VUnit).
-Theorem C07_upsert_refuted_lemma :
+Theorem C07_prefix_upsert_refuted_lemma :
   canonical [4; 3]%N <> [4; 3]%N /\
   in_dom LP lp_dom (van_upsert [4; 3]%N (mkctx 765 true)) (mkctx 765 true) ups_intended /\
-  exists bs, enc_L LP (impl_upsert [4; 3]%N (mkctx 765 true)) (mkctx 765 true) ups_value = Ok bs /\
+  exists bs, enc_L LP (prefix_upsert [4; 3]%N (mkctx 765 true)) (mkctx 765 true) ups_value = Ok bs /\
              van_upsert_decode (mkctx 765 true) bs <> Ok (ups_intended, []).
 Proof.
   split; [vm_compute; discriminate|]. split.
